@@ -77,6 +77,10 @@ def variants(rng, base):
     yield "exact", base
     v = base.clone()
     amp = 0.2
+    # an angle with one short and one long arm turns a 0.2 m shift of the near target into a misclosure that the
+    # documented rule (angular misclosure x arm length) rates above 1 m: tol-abs is raised so that nothing is a
+    # gross error by the documented rule
+    v.params["tol_abs"] = 1e5
     # constrained points define the datum of a free network through their approximate coordinates: perturbing
     # them legitimately moves the whole solution, so only the non-constrained unknown points are perturbed
     for q in v.points.values():
@@ -163,9 +167,26 @@ def strategy_nets(rng):
     yield finish(n, "traverse")
     n = base(3); station(n, "F0", dirs=("F1", "P"), sdists=("P",), zangles=("P",)); station(n, "F2", dirs=("F3", "P"), sdists=("P",), zangles=("P",))
     yield finish(n, "3d-polar-zenith")
+    # heights from zenith angle + slope distance observed with an instrument height only / a target height only
+    n = base(3)
+    c1 = station(n, "F0", dirs=("F1", "P"), sdists=("P",), zangles=("P",)); c2 = station(n, "F2", dirs=("F3", "P"), sdists=("P",), zangles=("P",))
+    one = (None, 2.0) if rng.uniform() < 0.5 else (1.62, None)       # the same side at both stations
+    for c, (fdh, tdh) in ((c1, one), (c2, one)):
+        for o in c.obs:
+            if o.kind in ("s-distance", "z-angle"):
+                o.from_dh, o.to_dh = fdh, tdh
+    yield finish(n, "3d-polar-zenith-one-sided-heights")
     n = base(3); station(n, "F0", dirs=("F1", "P"), dists=("P",)); station(n, "F1", dirs=("F0", "P"))
     cl = netgen.Cluster("hdiff"); cl.obs.append(netgen.Obs("dh", "F0", "P", stdev=2.0)); cl.obs.append(netgen.Obs("dh", "P", "F2", stdev=2.0)); n.clusters.append(cl)
     yield finish(n, "height-differences")
+    # steep slope distances with known heights and no zenith angles: the horizontal position comes from the slope
+    # distance reduced with the height difference
+    n = base(3)
+    d0 = math.hypot(n.points["P"].E - n.points["F0"].E, n.points["P"].N - n.points["F0"].N)
+    n.points["P"].H = n.points["F0"].H + float(rng.choice([-1, 1])) * float(rng.uniform(0.08, 0.25)) * d0
+    n.points["P"].give_z = True
+    station(n, "F0", dirs=("F1", "P"), sdists=("P",)); station(n, "F2", dirs=("F3", "P"), sdists=("P",))
+    yield finish(n, "steep-slope-known-heights")
     n = base(3)
     cl = netgen.Cluster("vectors")
     for f in ("F0", "F1"):
@@ -193,6 +214,17 @@ def gen_base(seed, i):
     if dim >= 2 and rng.uniform() < 0.25:
         feats.append("coords")
     net = netgen.gen_net(rng, dim=dim, noise=False, features=tuple(feats))
+    if "dh-heights" in feats:
+        # one-sided heights too (instrument height only / target height only)
+        for cl, o in net.all_obs():
+            if o.from_dh is not None:
+                u = rng.uniform()
+                if u < 0.25:
+                    o.to_dh = None
+                elif u < 0.5:
+                    o.from_dh = None
+                o.true = netgen.model_value(net, cl, o)
+                o.val = o.true
     # in omitted-coordinate variants heights come from hdiff: make sure 3D nets that omit have levelling
     return rng, net, feats
 
